@@ -157,7 +157,7 @@ def run(tier, seed, replay):
         print('  finding [%s] %s [%s]: %s' % (cls, c['cid'], c['g'].desc(), full[:360]))
     shutil.rmtree(d, ignore_errors=True)
     shutil.rmtree(d0, ignore_errors=True)
-    cov = {'evaluations': len(cases), 'distinct_nontrivial': len(cases),
+    cov = {'evaluations': len(cases), 'distinct_nontrivial': qv.distinct_nontrivial([c['text'] for c in cases]), 'nontrivial_rule': 'distinct operation scripts with at least one write',
            'rule': 'histories crossing refcount-block capacity (2-5 blocks), refcount-table capacity (one cluster of table entries), L1 capacity (header lists fewer entries than needed), and host files with a zero / stale tail; FlatDisk oracle, specification checker on every flushed snapshot, reopen sweep',
            'samples': [{'kind': c['kind'], 'geometry': c['g'].desc(), 'ops': [hist.op_line(o) for o in c['ops'][:6]]} for c in cases[:3]],
            'distribution': dict(kinds), 'findings_by_class': dict(seen)}
